@@ -15,6 +15,7 @@ import (
 type Case struct {
 	Kind         string   `json:"kind"` // generator class (label only; the check recomputes what matters)
 	Services     []string `json:"services"`
+	Nameless     *int     `json:"nameless,omitempty"` // index of the service whose resources carry no service.name (its name is ""); nil: none
 	Spans        []*Span  `json:"spans"`      // in ingestion order
 	Batches      []int    `json:"batches"`    // sizes of the OTLP export requests (sum = len(Spans))
 	FlushAfter   []bool   `json:"flushAfter"` // flush after batch i (the last batch is always flushed)
